@@ -144,9 +144,10 @@ type vRelayReq struct {
 }
 
 type vRelayConn struct {
-	s     int
-	ws    *websocket.Conn
-	ended bool // relay.end logged
+	s      int
+	ws     *websocket.Conn // nil until the upgrade is done
+	failed bool
+	ended  bool // relay.end logged
 }
 
 type vClient struct {
@@ -258,13 +259,15 @@ func (r *vRig) hook(point string, args ...interface{}) {
 	case "dh.dial":
 		us, _ := args[0].(string)
 		e["url"] = us
-		s := r.lastOnDC
-		if u, err := url.Parse(us); err == nil {
-			if v := u.Query().Get("s"); v != "" {
-				s, _ = strconv.Atoi(v)
+		if _, known := r.handlerG[gid]; !known {
+			s := r.lastOnDC
+			if u, err := url.Parse(us); err == nil {
+				if v, _ := strconv.Atoi(u.Query().Get("s")); v > 0 {
+					s = v
+				}
 			}
+			r.handlerG[gid] = s
 		}
-		r.handlerG[gid] = s
 	}
 	if gid == r.mainG {
 		e["g"] = "main"
@@ -492,16 +495,24 @@ func (r *vRig) serveRelay(which string, w http.ResponseWriter, req *http.Request
 		http.Error(w, "refused", http.StatusForbidden)
 		return
 	}
-	ws, err := vUpgrader.Upgrade(w, req, nil)
-	if err != nil {
-		r.log(vEvent{"ev": "relay.refuse", "s": s, "err": err.Error()})
-		return
-	}
-	rc := &vRelayConn{s: s, ws: ws}
+	// logged BEFORE the upgrade, so that the log order is the causal order:
+	// whatever the proxy does once its dial has returned comes later
+	rc := &vRelayConn{s: s}
 	r.mu.Lock()
 	r.relays[s] = rc
 	r.held++
 	r.logLocked(vEvent{"ev": "relay.accept", "s": s})
+	r.mu.Unlock()
+	ws, err := vUpgrader.Upgrade(w, req, nil)
+	r.mu.Lock()
+	if err != nil {
+		rc.failed = true
+		r.logLocked(vEvent{"ev": "harness.error", "what": "relay upgrade failed: " + err.Error()})
+		r.mu.Unlock()
+		return
+	}
+	rc.ws = ws
+	r.cond.Broadcast()
 	r.mu.Unlock()
 	if r.autoRelay {
 		r.endRelay(s, "relay")
@@ -530,7 +541,10 @@ func (r *vRig) serveRelay(which string, w http.ResponseWriter, req *http.Request
 func (r *vRig) endRelay(s int, by string) {
 	r.mu.Lock()
 	rc := r.relays[s]
-	if rc == nil || rc.ended {
+	for rc != nil && rc.ws == nil && !rc.failed {
+		r.cond.Wait() // upgrade in progress
+	}
+	if rc == nil || rc.ended || rc.failed {
 		r.mu.Unlock()
 		return
 	}
